@@ -96,6 +96,8 @@ func trustSummary(p *core.Prog, fn *ssa.Function) *wsummary {
 		return ts(nil, nil, false)
 	case name == "io.ReadAtLeast", name == "io.ReadFull":
 		return ts([]int{0, 1}, nil, true)
+	case name == "io.WriteString":
+		return ts([]int{0}, nil, true) // writes the writer, reads the string
 	case pkg == "fmt", pkg == "errors", pkg == "strconv", pkg == "encoding/hex", pkg == "reflect", pkg == "strings", pkg == "unicode/utf8":
 		return ts(nil, nil, true) // formatting / construction: arguments read-only
 	case pkg == "sync/atomic":
